@@ -1,10 +1,12 @@
 CONSTANTS
   HashMode = "real"
   Bug = "none"
-  Sweeps = {"pairs", "near", "deep"}
+  Sweeps = {"pairs", "near", "deep", "hier", "xtwin", "xnear", "xdeep"}
   PairDepth = 2
   NearDepth = 3
   DeepDepth = 2
+  HierDepth = 3
+  XDepth = 2
   EmitCases = TRUE
 INIT Init
 NEXT Next
